@@ -191,8 +191,8 @@ def worker_main(args):
             t()
     # minimise candidates (bounded)
     out_c = []
-    for bucket, (sz, case, o, hist) in list(candidates.items())[:6]:
-        small, o2 = minimise(mod, case, bucket, max_seconds=budget.get("shrink_seconds", 60))
+    for bucket, (sz, case, o, hist) in list(candidates.items())[:5]:
+        small, o2 = minimise(mod, case, bucket, max_seconds=budget.get("shrink_seconds", 30))
         out_c.append({"bucket": bucket, "case": small, "detail": (o2 or o).get("detail"),
                       "orig_case": case, "orig_detail": o.get("detail"), "history": hist})
     result.update(ctx.dump())
